@@ -18,6 +18,15 @@ CHECKS = {
   'C03': dict(category='other', technique='symbolic execution of the traced jaxpr + QF_LRA queries (monomial abstraction, denominators cleared for shallow water)',
               text='Bounded symbolic verification of the resolvent identity inverse(x - eta G x, eta) = x for ALL states on each enumerated (grid, uneven/even sigma levels, T_ref, constants, step size of either sign, dense/sparse operator, split/stacked/blockwise solve); dense==sparse for all inputs; linearity; derived (replace/copy) equation objects; shallow water with symbolic step and reference potentials.',
               design='§3 C03'),
+  'C04': dict(category='other', technique='symbolic execution of the traced jaxpr (polynomial normal forms, reciprocal atoms reduced modulo their relations) + QF_LRA monomial-abstraction queries, NRA/replay on sat',
+              text='Metamorphic polynomial identity decided for ALL admissible states: explicit+implicit tendency of the same physical atmosphere under two reference-temperature profiles agree (dry, with-time, moist, cloud classes; orography; tracers; even/uneven levels; non-monotone profiles).',
+              design='§3 C04'),
+  'C09': dict(category='translation_validation', technique='symbolic execution of both implementations on the same symbolic inputs + QF_LRA equivalence queries',
+              text='Translation validation of RealSphericalHarmonics vs FastSphericalHarmonics under the fixed re-indexing for every Grid operation and each option combination (padding multiple, stacked transforms, einsum order), for ALL inputs in the box; model tendencies compared as polynomial identities.',
+              design='§3 C09'),
+  'C13': dict(category='other', technique='symbolic execution of the traced jaxpr + QF_LRA queries (monomial abstraction for bilinear clauses)',
+              text='Bounded symbolic verification of the sigma calculus identities for ALL column data and vertical velocities on each enumerated level set (even, dyadic uneven, seeded random), axis and shape.',
+              design='§3 C13'),
 }
 
 NOT_YET = {}
